@@ -193,6 +193,10 @@ def main():
         C.prove("native-two-file-project", [], False, site="namespace-access/native", what="native visibility probe failed",
                 replay=lambda m: rep)
     C.models_used |= stdmodels.USED
+    # part B: the loader's import arm performs the copy / alias step for every resolved import
+    from checks import c34b
+    c34b.run_loader_kernel(C, P)
+    C.resolve_deferred(workers=2)
     C.finish()
 
 
